@@ -325,3 +325,16 @@ Example C15_ex_normal_start :
   spec_known prim_ops (mkP ApiList 0x1p-1074 3 CNone 0x1.0000000000001p+0 0 0%nat) 5%nat = true.
 Proof. vm_compute. auto. Qed.
 
+(* the Spec is not vacuous: it rejects observations that break a single clause *)
+Example C15_ex_spec_rejects :
+  let p := mkP ApiList 1 10 CNone 2 0 0%nat in
+  spec_holds prim_ops p (mkObs [1; 2; 4; 8] EStop) = false /\           (* does not end at stop *)
+  spec_holds prim_ops p (mkObs [1; 2; 4; 8; 16] EStop) = false /\       (* exceeds stop *)
+  spec_holds prim_ops p (mkObs [2; 4; 8; 10] EStop) = false /\          (* does not start with start *)
+  spec_holds prim_ops p (mkObs [1; 2; 4; 0x1.0000000000001p+3; 10] EStop) = false /\  (* not exactly factor *)
+  spec_holds prim_ops p (mkObs [] (ERaise ValueError)) = false /\       (* valid parameters must not raise *)
+  spec_holds prim_ops (mkP ApiList 1 10 (CNum 3) 2 0 0%nat) (mkObs [1; 2; 4; 8] EStop) = false /\  (* wrong length *)
+  spec_holds prim_ops (mkP ApiList 8 2 (CNum 3) 2 0 0%nat) (mkObs [8; 2; 2] EStop) = false /\     (* must raise *)
+  spec_holds prim_ops (mkP ApiList 0 0.5 (CNum 3) 2 0 0%nat) (mkObs [0; 1; 1] EStop) = false /\   (* 0 -> min(1,stop) *)
+  spec_holds prim_ops (mkP ApiList 1 10 (CNum 2) 2 1 0%nat) (mkObs [1; 2.5] EStop) = false.       (* jitter bound *)
+Proof. vm_compute. repeat split; reflexivity. Qed.
